@@ -171,4 +171,92 @@ func c32(x *Ctx) {
 		}
 	}
 	c.Min(r, 4)
+
+	// ---- a (re-)insert always gives the element a new lease; a sweep looks at every element ------------------------
+	// Both are necessary for "the listings and the point look-ups agree": an insert that can return without storing
+	// leaves the old expiry (all queries agree, all are wrong); a sweep that can return without visiting the items
+	// leaves expired items in Members/Keys/Length while Contains/Get already say absent.
+	const r2 = "C32.insert-always-stores"
+	const r3 = "C32.sweep-visits-all"
+	for _, typ := range []string{"SetWithTTL", "MapWithTTL"} {
+		seenM := map[string]bool{}
+		for _, f := range x.PkgFuncs("generics") {
+			if f.Parent() != nil || f.Blocks == nil || f.Signature.Recv() == nil || !strings.Contains(f.Signature.Recv().Type().String(), "generics."+typ+"[") || seenM[f.Name()] {
+				continue
+			}
+			if f.Synthetic != "" && !strings.Contains(f.Synthetic, "instance") {
+				continue // wrappers and bound-method thunks
+			}
+			name := f.Name()
+			isInsert := name == "Add" || name == "Set"
+			isSweep := name == "cleanup"
+			if !isInsert && !isSweep {
+				continue
+			}
+			seenM[name] = true
+			itemsOf := func(v ssa.Value) bool {
+				fr, _, ok := eng.LoadedField(v)
+				return ok && fr.Name == "Items"
+			}
+			// the construct every path has to pass: for an insert the MapUpdate on Items (or the loop it sits in),
+			// for a sweep the range over Items (or a maps.DeleteFunc over it)
+			var must []ssa.Instruction
+			eng.Instrs(f, func(in ssa.Instruction) {
+				switch y := in.(type) {
+				case *ssa.MapUpdate:
+					if isInsert && itemsOf(y.Map) {
+						if h := loopHeader(in); h != nil {
+							must = append(must, h.Instrs[0])
+						} else {
+							must = append(must, in)
+						}
+					}
+				case *ssa.Range:
+					if isSweep && itemsOf(y.X) {
+						must = append(must, in)
+					}
+				case *ssa.Call:
+					if isSweep && strings.HasSuffix(eng.CalleeName(y), "maps.DeleteFunc") && len(y.Call.Args) > 0 && itemsOf(y.Call.Args[0]) {
+						must = append(must, in)
+					}
+				}
+			})
+			rule, what := r2, "stores the element's new expiry"
+			if isSweep {
+				rule, what = r3, "visits the items"
+			}
+			c.Examined++
+			if len(must) == 0 {
+				c.Violate(rule, typ+"/"+name, x.PosOf(f.Pos()), typ+"."+name+" never "+what)
+				continue
+			}
+			r := eng.Explore(eng.Query{Fn: f, Classify: func(in ssa.Instruction, _ eng.Facts) eng.Event {
+				for _, m := range must {
+					if in == m {
+						return eng.EvSink
+					}
+				}
+				return eng.EvNone
+			}})
+			bad := false
+			var path []*ssa.BasicBlock
+			for _, e := range r.Exits {
+				if _, isRet := e.Instr.(*ssa.Return); isRet && e.Sinks == 0 {
+					bad, path = true, e.Path
+				}
+			}
+			if bad {
+				msg := typ + "." + name + " can return without storing the element's new expiry: a re-insert that is skipped leaves the old lease, so the element expires a full TTL after its first insert instead of its latest one"
+				if isSweep {
+					msg = typ + "." + name + " can return without visiting the items (a shortcut in front of the scan): expired items stay in the listings and the length while the point look-up already answers absent"
+				}
+				o := c.Violate(rule, typ+"/"+name, x.PosOf(f.Pos()), msg)
+				o.Path = eng.DescribePath(x.P.Pos, path)
+			} else {
+				c.Hold(rule, typ+"/"+name, x.PosOf(f.Pos()), "every path "+what)
+			}
+		}
+	}
+	c.Min(r2, 2)
+	c.Min(r3, 2)
 }
